@@ -732,6 +732,12 @@ def tuple_length_probe(ctx):
 
 
 def run(ctx):
+    import time
+    marks = [("start", time.time())]
+
+    def lap(name):
+        marks.append((name, time.time()))
+        ctx.note("wall_s:" + name, round(marks[-1][1] - marks[-2][1], 1))
     cases = []
     hyp_cases = []
     pairs = gen_random(ctx, 2500 if ctx.thorough else 330)
@@ -743,9 +749,13 @@ def run(ctx):
     # full configuration product on a few pairs
     for t1, t2 in pairs[:40 if ctx.thorough else 8]:
         one_pair(ctx, t1, t2, cases, full=True, corr=False)
+    lap("pairs:implementation+oracle")
     chains(ctx, 400 if ctx.thorough else 60)
+    lap("chains")
     ignore_order_clause(ctx, 1500 if ctx.thorough else 250)
+    lap("ignore_order_clause")
     veq_base_clause(ctx, pairs + su, 600 if ctx.thorough else 45)
+    lap("veq_base_clause")
     for c in cases[:3]:
         ctx.sample(c[2])
     hdr = DC.HYP_HDR
@@ -754,6 +764,7 @@ def run(ctx):
     ctx.coq_cases("c01", hdr, both, shard=120, label="payload+apply+theorem-hypotheses")
     ctx.coq_cases("c01p", DC.HDR, plain, shard=120, label="payload+apply")
     ctx.note("hypothesis_cases", len(hyp_cases))
+    lap("pairs:model")
     tuple_length_probe(ctx)
     witnesses(ctx)
 
@@ -761,22 +772,32 @@ def run(ctx):
     # on every step and compared with its Python mirror (Delta/DeltaChainRun.v, harness/c01chain.py)
     from harness import c01chain
     c01chain.stream(ctx)
+    lap("chains_on_running_result")
 
     # numpy arrays "edited in place" (same shape, same numeric dtype): direct oracle + correspondence with Delta/DeltaNp.v
     from harness import c01np
     c01np.stream(ctx)
+    lap("numpy")
+
+    # the faithful refinement of _do_item_added (tuple insert raises, negative indexes) on tuples of different length and
+    # on hand-built payloads (iterable_item_moved, negative / out-of-range indexes, ...): Delta/DeltaFaithful.v, harness/c01free.py
+    from harness import c01free
+    c01free.stream(ctx)
+    lap("free_payloads")
 
     # beyond the property's text / quantifier: recorded, never a violation
     with ctx.extension("IgnoreOrderBeyondText"):
         ignore_order_beyond(ctx, 300 if ctx.thorough else 40)
     with ctx.extension("SharedSubObjects"):
         shared_inputs_beyond(ctx, 400 if ctx.thorough else 60)
+    lap("extensions:ignore_order_beyond+shared")
 
     # extension: class instances (attributes) inside the same models - beyond the property's stated domain,
     # recorded in the evidence file, never a violation (core.Ctx.extension; coq/theories/Obj)
     with ctx.extension("Obj"):
         from harness import objcommon as O
         O.stream_c01(ctx)
+    lap("extension:Obj")
 
 
 def witnesses(ctx):
